@@ -779,6 +779,10 @@ class Actor(object):
 
             # inode is prepended in act.resolvePath
 
+            if ipath is not None and not isinstance(ipath, (str, bytes)):
+                # such as 'do ... per key 5' replacing the ipath of a registry mapping
+                raise ValueError("Bad ioinit for key '{0}' with ipath '{1}'".format(key, ipath))
+
             if not ipath:
                 ipath = key  # when ipath empty create default from key
 
